@@ -1018,6 +1018,8 @@ namespace bloch::runtime {
                     declaredBase = named->nameParts.back();
             } else if (!clsNode->baseName.empty()) {
                 declaredBase = clsNode->baseName.back();
+            } else if (!clsNode->baseType && !clsNode->isStatic && clsNode->name != "Object") {
+                declaredBase = "Object";  // the implicit root, when the program declares it itself
             }
             if (auto bit = declByName.find(declaredBase); bit != declByName.end())
                 populate(bit->second);
